@@ -8,11 +8,18 @@
 //	rsa1sig.pem    rsa1's key under a certificate whose keyUsage is digitalSignature only
 //	rsa1ca.pem     rsa1's key under a self-signed certificate with basicConstraints CA:TRUE (what openssl req -x509 makes)
 //	rsa1024.pem    a 1024-bit RSA key (the shortest crypto/rsa works with: the least room for key transport and signature padding)
+//	rsaca.pem      a root CA (self-signed, CA:TRUE, keyCertSign)
+//	rsaica.pem     an issuing CA whose certificate was issued by rsaca
+//	rsaleaf.pem    an RSA key whose certificate was issued by rsaica (an IdP that got its certificate from a CA and sends the chain along)
+//	ecleaf.pem     an ECDSA P-256 key whose certificate was issued by rsaica
 //
 // usage: go run ./cmd/mkfixture <fixtures dir> [only-missing]
 package main
 
 import (
+	"crypto"
+	"crypto/ecdsa"
+	"crypto/elliptic"
 	"crypto/rand"
 	"crypto/rsa"
 	"crypto/sha1"
@@ -41,8 +48,56 @@ func write(dir, name string, key *rsa.PrivateKey, tmpl *x509.Certificate) {
 	}
 }
 
+// writeIssued writes key and a certificate for it that is issued by (signed with the key of) the given CA.
+func writeIssued(dir, name string, key crypto.Signer, tmpl, caCert *x509.Certificate, caKey crypto.Signer) *x509.Certificate {
+	der, err := x509.CreateCertificate(rand.Reader, tmpl, caCert, key.Public(), caKey)
+	if err != nil {
+		panic(err)
+	}
+	kb, err := x509.MarshalPKCS8PrivateKey(key)
+	if err != nil {
+		panic(err)
+	}
+	out := pem.EncodeToMemory(&pem.Block{Type: "PRIVATE KEY", Bytes: kb})
+	out = append(out, pem.EncodeToMemory(&pem.Block{Type: "CERTIFICATE", Bytes: der})...)
+	if err := os.WriteFile(filepath.Join(dir, name+".pem"), out, 0o644); err != nil {
+		panic(err)
+	}
+	c, err := x509.ParseCertificate(der)
+	if err != nil {
+		panic(err)
+	}
+	return c
+}
+
 func main() {
 	dir := os.Args[1]
+	if len(os.Args) > 2 && os.Args[2] == "chain" {
+		// root CA -> issuing CA -> an RSA and an ECDSA end-entity certificate
+		nb, na := time.Date(1990, 1, 1, 0, 0, 0, 0, time.UTC), time.Date(2200, 1, 1, 0, 0, 0, 0, time.UTC)
+		gen := func() *rsa.PrivateKey {
+			k, err := rsa.GenerateKey(rand.Reader, 2048)
+			if err != nil {
+				panic(err)
+			}
+			return k
+		}
+		rootKey, icaKey, leafKey := gen(), gen(), gen()
+		ecKey, err := ecdsa.GenerateKey(elliptic.P256(), rand.Reader)
+		if err != nil {
+			panic(err)
+		}
+		rootTmpl := &x509.Certificate{SerialNumber: big.NewInt(109), Subject: pkix.Name{CommonName: "rsaca"}, NotBefore: nb, NotAfter: na,
+			KeyUsage: x509.KeyUsageCertSign | x509.KeyUsageCRLSign, BasicConstraintsValid: true, IsCA: true}
+		root := writeIssued(dir, "rsaca", rootKey, rootTmpl, rootTmpl, rootKey)
+		ica := writeIssued(dir, "rsaica", icaKey, &x509.Certificate{SerialNumber: big.NewInt(110), Subject: pkix.Name{CommonName: "rsaica"}, NotBefore: nb, NotAfter: na,
+			KeyUsage: x509.KeyUsageCertSign | x509.KeyUsageCRLSign, BasicConstraintsValid: true, IsCA: true, MaxPathLenZero: true}, root, rootKey)
+		writeIssued(dir, "rsaleaf", leafKey, &x509.Certificate{SerialNumber: big.NewInt(111), Subject: pkix.Name{CommonName: "rsaleaf"}, NotBefore: nb, NotAfter: na,
+			KeyUsage: x509.KeyUsageDigitalSignature | x509.KeyUsageKeyEncipherment, BasicConstraintsValid: true}, ica, icaKey)
+		writeIssued(dir, "ecleaf", ecKey, &x509.Certificate{SerialNumber: big.NewInt(112), Subject: pkix.Name{CommonName: "ecleaf"}, NotBefore: nb, NotAfter: na,
+			KeyUsage: x509.KeyUsageDigitalSignature, BasicConstraintsValid: true}, ica, icaKey)
+		return
+	}
 	if len(os.Args) > 2 && os.Args[2] == "rsaold2" {
 		// a second key whose certificate lapsed in 1999, like rsaold's (an IdP all of whose listed certificates are outside their validity period)
 		k, err := rsa.GenerateKey(rand.Reader, 2048)
